@@ -40,6 +40,11 @@ CHECKS = {
    text="At each of the 120 (thorough 1092) nodes of the tree of block-order words over {zone, region, prime} up to depth 4 (6), the child assembled by the node's worker is accepted by VerifyHeader of every chain it belongs to, each of 30 single-field deviations (number, time before parent / far future, difficulty, prime-terminus hash and number, lock, data, coinbase scope, location, share fields before the fork, per-context parent entropy / delta entropy / uncled delta entropy, efficiency score, threshold count, expansion number, eligible slices, prime/region state roots, miner difficulty, gas and state limits/usage, base fee, extra size) that survives the wire encoding is rejected by at least one of those chains, accumulated entropy strictly increases in every chain, and CalcOrder is identical on repeated calls, for the round-tripped object and on a cold replica.",
    note="Trusts: injected PoW engine (deviations keep a valid seal so that the header rules decide), fork regime before KawPow (post-fork share-difficulty derivations are not driven), scaled constants. A deviation is counted as accepted only if every chain of a full node accepts it.",
    design="2/C09"),
+ "C04": dict(
+   technique="explicit-state BFS of the real ETX queue in lock-step with a FIFO model; exhaustive block-order words on a real prime/region/zone node under an ETX id monitor; exhaustive single edits of the inbound ETX list of own blocks",
+   text="(queue) every push/pop/commit+reopen/copy history to depth 5 (thorough 7) of the real StateDB queue, started from index cells 0, 254 and 65534 so that keys cross the 1->2->3 byte boundaries, agrees with a FIFO list on every pop, on indices and on every readable element, and equal queue contents give equal ETX roots. (routing) for every word of length <=4 (6) over {zone, region, prime block, inject conversion} after a warm-up and followed by a draining suffix, a monitor over the canonical zone chain demands: executed ETX ids are a subset of emitted ones, none twice, only after the coincident block, payload unchanged except conversion repricing, execution order is exactly the concatenation of the inbound lists handed down by the dominant chain, nothing handed down twice, and everything emitted before the drain is delivered and executed. (inclusion) on own blocks carrying 1-4 inbound ETXs every single edit (swap, duplicate, drop, unknown, altered value, omit all) is rejected.",
+   note="Trusts: a single zone (expansion 0), so every ETX (coinbase, conversion) travels zone->region->prime->region->zone and no cross-zone destination exists; reorganisations during routing are not driven; scaled constants.",
+   design="2/C04"),
 }
 
 NOT_YET = "check not built yet in this session (planned; see DESIGN.md section 2)"
